@@ -100,27 +100,23 @@ func loadLedger(id string) *Ledger {
 func cone(w *World, id string) []*FuncInfo {
 	seen := map[*FuncInfo]bool{}
 	var out []*FuncInfo
-	var add func(fi *FuncInfo)
-	shallowOnly := map[*FuncInfo]bool{}
-	add = func(fi *FuncInfo) {
-		if seen[fi] && !shallowOnly[fi] {
-			return
-		}
-		if seen[fi] && shallowOnly[fi] {
-			// reached again through a full edge: expand now
-			delete(shallowOnly, fi)
-		} else {
+	// add(fi, full): full = reached as a root that carries the property with callee expansion, or through a call edge
+	// from an expanded function; !full = a root that carries the property as `shallow` only (its callees stay out)
+	expanded := map[*FuncInfo]bool{}
+	var add func(fi *FuncInfo, full bool)
+	add = func(fi *FuncInfo, full bool) {
+		if !seen[fi] {
 			seen[fi] = true
 			if fi.Contract != nil && !fi.Contract.Trusted && !inlinable(fi) {
 				out = append(out, fi)
 			}
 		}
+		if !full || expanded[fi] {
+			return
+		}
+		expanded[fi] = true
 		if fi.Contract == nil && !inlinable(fi) {
 			return // uncontracted callees are havoc at the call site; their bodies are not part of this proof
-		}
-		if fi.Contract != nil && contains(fi.Contract.ShallowProps, id) && !fullTag(fi, id) {
-			shallowOnly[fi] = true
-			return
 		}
 		for _, c := range w.callees[fi] {
 			// a tool's main is in the cone for what main itself does (dispatch, order, output); the library functions it
@@ -128,7 +124,7 @@ func cone(w *World, id string) []*FuncInfo {
 			if fi.PkgDir != c.PkgDir && fi.PkgDir != "." {
 				continue
 			}
-			add(c)
+			add(c, true)
 		}
 	}
 	for _, fi := range w.Funcs {
@@ -149,7 +145,11 @@ func cone(w *World, id string) []*FuncInfo {
 			tagged = true
 		}
 		if tagged {
-			add(fi)
+			shallow := contains(fi.Contract.ShallowProps, id) && !fullTag(fi, id)
+			if id == "C09" && !contains(fi.Contract.Props, id) {
+				shallow = false
+			}
+			add(fi, !shallow)
 		}
 	}
 	sort.Slice(out, func(i, j int) bool { return out[i].Key < out[j].Key })
@@ -165,12 +165,7 @@ func fullTag(fi *FuncInfo, id string) bool {
 			}
 		}
 	}
-	for _, p := range fi.Contract.Props {
-		if p == id && !contains(fi.Contract.ShallowProps, id) {
-			return true
-		}
-	}
-	return false
+	return contains(fi.Contract.FullProps, id)
 }
 
 func rangesOverBuiltinMap(fi *FuncInfo) bool {
